@@ -291,10 +291,41 @@ def _write_if_changed(path, content):
     return False
 
 
+def translate_group(gname):
+    """one Generated/Py*.lean file from harness/translate/specs.py via the generic translator"""
+    from . import py2lean, specs
+    g = specs.GROUPS[gname]
+    out = ["import " + m for m in g["imports"]]
+    out += ["/-! GENERATED from /repo by harness/translate/py2lean.py -- do not edit.",
+            "Literal translation of the Python bodies named below; modelling decisions (types, renderings of",
+            "attribute accesses and external calls) are in harness/translate/specs.py. -/"]
+    out += ["", "set_option linter.unusedVariables false", "", "namespace OdeVerif.Generated", "open OdeVerif", ""]
+    info = {}
+    for path, spec in g["functions"]:
+        if g["file"] is None:
+            rel, path = path[0], path[1:]
+        else:
+            rel = g["file"]
+        try:
+            text, meta = py2lean.translate(_src(rel), path, spec)
+        except py2lean.Unsupported as e:
+            raise Unsupported("%s: %s" % (".".join(path), e))
+        out.append("-- source: %s :: %s" % (rel, ".".join(path)))
+        if meta["dropped"]:
+            out.append("-- dropped (raise-only) statements: " + " | ".join(d.replace("\n", " ") for d in meta["dropped"]))
+        out.append(text)
+        info[spec.name] = meta
+    out.append("end OdeVerif.Generated\n")
+    return "\n".join(out), info
+
+
 def regenerate_all(outdir):
     os.makedirs(outdir, exist_ok=True)
     res = {"changed": [], "errors": {}, "info": {}}
-    for name, fn in (("DrawDecision", translate_draw_decision), ("Constants", translate_constants)):
+    from . import specs as _specs
+    jobs = [("DrawDecision", translate_draw_decision), ("Constants", translate_constants)]
+    jobs += [(g, (lambda g=g: translate_group(g))) for g in _specs.GROUPS]
+    for name, fn in jobs:
         try:
             content, info = fn()
             res["info"][name] = info
